@@ -10,7 +10,7 @@ def dispatch (line : String) : String :=
   match (line.splitOn " ").filter (· ≠ "") with
   | op :: rest =>
     match allOps.lookup op with
-    | some f => f rest
+    | some f => (f rest).replace "\n" " "
     | none => "bad-op"
   | [] => "bad-op"
 
